@@ -214,7 +214,7 @@ def random_case(rnd):
     environment actions are used and at most N children ever exist."""
     fdem = rnd.choice(FDEMS)
     n0 = rnd.randrange(0, 3)
-    init = [{"s": rnd.choice([0, 1, 2, 4]), "u": rnd.choice([0, 2, 4]), "a": rnd.choice([0, 2, 4]), "d": rnd.choice([1, 2, 3])} for _ in range(n0)]
+    init = [{"s": rnd.choice([0, 1, 2, 4]), "u": rnd.choice([0, 2, 4]), "a": rnd.choice([0, 2, 4]), "d": rnd.choice([0, 1, 2, 3])} for _ in range(n0)]
     return {"fdem": fdem, "init": init, "ops": None, "seed": rnd.randrange(1 << 30), "src": "random"}
 
 
@@ -334,9 +334,11 @@ def run(ctx):
     thorough = ctx.tier == "thorough"
     rnd = random.Random(ctx.seed)
     dom = {"DemandVals": [0, 2, 5], "SupplyVals": [0, 2, 4], "FitVals": [0, 4], "depth": 8 if thorough else 7}
-    inits = [[], [{"s": 2, "u": 4, "a": 4, "d": 2}], [{"s": 4, "u": 2, "a": 4, "d": 3}, {"s": 2, "u": 4, "a": 0, "d": 1}]]
+    # (the last one: an initial child that is already disabled but still supplies)
+    inits = [[], [{"s": 2, "u": 4, "a": 4, "d": 2}], [{"s": 4, "u": 2, "a": 4, "d": 3}, {"s": 2, "u": 4, "a": 0, "d": 1}], [{"s": 2, "u": 2, "a": 4, "d": 0}, {"s": 1, "u": 4, "a": 2, "d": 2}]]
     fd = FDEMS[0]
-    res = tlc.run("MCFac", mc_cfg(), module_text=mc_module("MCFac", fd, dom, inits), timeout=3000)
+    # (quick: the exhaustive run takes the first three; all four feed the simulated behaviours)
+    res = tlc.run("MCFac", mc_cfg(), module_text=mc_module("MCFac", fd, dom, inits if thorough else inits[:3]), timeout=3000)
     ctx.model_must_hold("Factory model", res)
     ctx.add_model_run("Factory.tla/N=%d fdem=%s depth=%d" % (N, fd, dom["depth"]), res, exhaustive=False, note="all histories to the stated depth")
     cases = []
